@@ -203,7 +203,9 @@ def history_case(rng, name, mk, meta, ids):
             try:
                 do_fit(est, meta, D2, nu - 1); fitted = True; ops.append(f'fit(other, n_inputs={nu - 1})')
             except Exception:  # noqa
-                ops.append('fit(other split) rejected')
+                # a fit that raised leaves the object in an undefined state (scikit-learn convention):
+                # the next operation must be a proper fit
+                ops.append('fit(other split) rejected'); fitted = False
         elif r < 0.45 or not fitted:
             do_fit(est, meta, D2 if rng.random() < 0.7 else D1, nu); fitted = True; ops.append('fit(other)')
         elif r < 0.7:
